@@ -549,7 +549,7 @@ def main():
     results = checklib.run_units(checklib.safe_worker(unit), units)
 
     def rp(ce):
-        if 'operator' in ce and 'children' in ce:
+        if ('operator' in ce and 'children' in ce) or ce.get('walk'):
             return c08.replay_ce(ce)
         return replay_ce(ce)
     checklib.finish(PID, results, t0=t0, replay_fn=rp,
